@@ -13,6 +13,7 @@
 #include <xsimd/config/xsimd_inline.hpp>
 
 #include <xsimd/memory/xsimd_aligned_allocator.hpp>
+#include <xsimd/memory/xsimd_alignment.hpp>
 
 namespace c18
 {
@@ -87,7 +88,12 @@ namespace c18
             ClientScope cs;
             try
             {
-                r.p = a.allocate(n);
+                T* q = a.allocate(n);
+                r.p = q;
+                // what user code does next with a fresh block: ask whether it may use aligned accesses on it. Evaluated here, on the very
+                // value allocate returned, so that anything the allocator told the optimizer about that value is in force.
+                if (q)
+                    r.is_aligned_seen = (xsimd::is_aligned<xsimd::sse2>(q) ? 1 : 0) | (xsimd::is_aligned<xsimd::avx>(q) ? 2 : 0) | (xsimd::is_aligned<xsimd::avx512f>(q) ? 4 : 0);
             }
             catch (const std::bad_alloc&)
             {
